@@ -241,6 +241,35 @@ CONSTRUCTS += [
     ("nested-def-annotation-evaluated", "observe", ["def g(a: int, b: 'int' = 3) -> 'int':", "    return a + b", 'result("g", g(x, 1))']),
 ]
 
+# keyword arguments on every KIND of callee (each kind of callee parses / checks its arguments with its own code):
+# user functions are covered above; here the special forms, builtins with custom checkers, constructors,
+# methods, function values, gates and the modifiers of `with` items.  Guppy has no keyword arguments, so
+# each of these must be rejected (in CPython every one of these calls raises TypeError or has no meaning).
+_KW_EXPRS = {
+    "comptime": "comptime(1, {kw})", "py": "py(1, {kw})", "len": "len(array(1, 2), {kw})", "int": "int(x, {kw})", "abs": "abs(x, {kw})",
+    "struct-constructor": "P(x, 2, {kw}).u", "nat": "int(nat(3, {kw}))", "range": "len(range(3, {kw}))", "array": "array(1, 2, {kw})[0]",
+    "function-value": "(sub)(x, 1, {kw})", "float": "int(float(x, {kw}))", "bool": "int(bool(x, {kw}))", "max": "max(x, 1, {kw})", "pow": "pow(x, 2, {kw})",
+    "divmod": "divmod(x, 2, {kw})[0]", "min": "min(x, 2, {kw})", "local-function-value": "fv(x, 1, {kw})",
+}
+_KW_STMTS = {
+    "result": 'result("t", x, {kw})', "panic": 'panic("boom", {kw})', "exit": 'exit("bye", 1, {kw})', "barrier": "barrier(cq, {kw})",
+    "gate": "h(cq, {kw})", "measure": "measure(qubit(), {kw})", "qubit": "discard(qubit({kw}))",
+    "with-dagger": "with dagger({kw}):\n    h(cq)", "with-control": "with control(dq, {kw}):\n    h(cq)", "with-power": "with power(2, {kw}):\n    h(cq)",
+    "with-control-2": "with control(dq, eq, {kw}):\n    h(cq)", "with-power-only": "with power({kw}):\n    h(cq)",
+    "with-second-item": "with dagger, power(2, {kw}):\n    h(cq)", "with-third-item": "with dagger, control(dq), power(2, {kw}):\n    h(cq)",
+}
+_KWS = {"one": "k=note(1)", "two": "k=note(1), j=note(2)", "double-star-empty": "**{}", "double-star": '**{"k": 1}'}
+for _cn, _ce in _KW_EXPRS.items():
+    for _kn, _kw in _KWS.items():
+        CONSTRUCTS.append((f"keywords-on:{_cn}:{_kn}", "must-reject", ["fv = sub", f'result("k", {_ce.format(kw=_kw)})']))
+for _cn, _ce in _KW_STMTS.items():
+    for _kn, _kw in _KWS.items():
+        if _cn == "with-power-only" and _kn != "one":
+            continue
+        _kw2 = "n=2" if _cn == "with-power-only" else _kw
+        CONSTRUCTS.append((f"keywords-on:{_cn}:{_kn}", "must-reject",
+                           ["cq = qubit()", "dq = qubit()", "eq = qubit()", *_ce.format(kw=_kw2).split("\n"), "discard(cq)", "discard(dq)", "discard(eq)"]))
+
 PLACEMENTS = {
     "body": lambda ls: ls,
     "in-if": lambda ls: ["if c:"] + ["    " + l for l in ls],
@@ -302,7 +331,8 @@ def eval_item(item):
         return res
     res["outcome"] = "accepted"
     if kind == "must-reject":
-        res["dis"] = "accepted although its Python meaning (generator / coroutine / context manager protocol) cannot take effect"
+        res["dis"] = ("accepted although it cannot take effect (no generator / coroutine / context manager protocol, no keyword "
+                      "arguments in Guppy): it was dropped silently")
         return res
     try:
         code = pyoracle.prepare(gload.PRELUDE + src)
